@@ -824,6 +824,11 @@ func (se *SessionExecutor) executeMultipleSQLInSlice(requestContext *util.Reques
 			// 1) 为当前这条 SQL 新开一个协程（go routine）去执行
 			go func(sql string, begin time.Time) {
 				queryResult, execErr := se.executeSingleSQLInSlice(pooledConn, currentSliceName, dbName, sql)
+				if execErr == nil {
+					// nothing streams on this path (the results are merged): read the chunks the
+					// backend reader has not handed over yet
+					execErr = fetchRemainingRows(pooledConn, queryResult, se.GetNamespace().GetMaxResultSize())
+				}
 				execResultChan <- executeResult{
 					result: queryResult,
 					err:    execErr,
@@ -1060,6 +1065,23 @@ func (se *SessionExecutor) executeSingleSQLInSlice(pooledConn backend.PooledConn
 	}
 	res, execErr := pooledConn.Execute(sql, se.GetNamespace().GetMaxResultSize())
 	return res, execErr
+}
+
+// fetchRemainingRows appends to res the rows of its result set that the backend reader has not
+// handed over yet: a result is read in chunks of about 16 MiB, and only the unsharded streaming
+// path (writeOKResultStream) fetches the following chunks itself. Without this the merge of a
+// sharded statement sees the first chunk only and the unread rest stays on the connection.
+func fetchRemainingRows(pooledConn backend.PooledConnect, res *mysql.Result, maxRows int) error {
+	for res != nil && res.Resultset != nil && pooledConn.MoreRowsExist() {
+		more := &mysql.Result{Resultset: &mysql.Resultset{Fields: res.Fields}}
+		if err := pooledConn.FetchMoreRows(more, maxRows); err != nil {
+			return err
+		}
+		res.RowDatas = append(res.RowDatas, more.RowDatas...)
+		res.Values = append(res.Values, more.Values...)
+		res.Status = more.Status
+	}
+	return nil
 }
 
 func canHandleWithoutPlan(stmtType int) bool {
